@@ -311,3 +311,45 @@ def cycle_info(prog):
                 if not positive:
                     negcyc = True
     return cyc, hasneg, negcyc
+
+
+# ---------------------------------------------------------------------------------------------
+# FC: positive cycles over three derived atoms (every subset of the 6 possible edges)
+
+FC_ATOMS = ["a", "x", "p"]
+FC_FACTS = {"a": ("0.3", "e"), "x": ("0.6", "f"), "p": ("0.5", "h")}
+
+
+def fc_programs(guarded=False):
+    """derived atoms a, x, p; for every ordered pair (d, e) an edge d :- e that is absent, plain or
+    (guarded=True) also 'd :- e, g' with a shared probabilistic fact g; every subset of the fact rules
+    d :- fact_d.  Rules are listed per head: edges first, then the fact rule (as a user would write
+    a transitive-closure style program)."""
+    pairs = [(d, e) for d in FC_ATOMS for e in FC_ATOMS if d != e]
+    kinds = (0, 1, 2) if guarded else (0, 1)
+    for edge_kinds in itertools.product(kinds, repeat=len(pairs)):
+        if guarded and 2 not in edge_kinds:
+            continue  # plain programs are family FC3
+        if sum(1 for k in edge_kinds if k) < 2:
+            continue
+        for fact_mask in range(1, 8):
+            clauses = []
+            used_facts = []
+            for i, d in enumerate(FC_ATOMS):
+                for (dd, e), k in zip(pairs, edge_kinds):
+                    if dd != d or not k:
+                        continue
+                    body = [[True, A(e)]]
+                    if k == 2:
+                        body.append([True, A("g")])
+                    clauses.append(rule(A(d), body))
+                if fact_mask & (1 << i):
+                    pr, f = FC_FACTS[d]
+                    clauses.append(rule(A(d), [[True, A(f)]]))
+                    used_facts.append(fact(pr, A(f)))
+            heads = {c["heads"][0][1][0] for c in clauses}
+            if not all(l[1][0] in heads or l[1][0] in ("e", "f", "h", "g") for c in clauses for l in c["body"]):
+                continue
+            if guarded:
+                used_facts.append(fact("0.2", A("g")))
+            yield used_facts + clauses, sorted(heads, key=FC_ATOMS.index)
